@@ -28,7 +28,7 @@ RULE = (
 ASSUMPTIONS = ["when a default is re-registered, a runtime created while the earlier default was registered may serve either (the statement does not say); a runtime that predates the first registration must serve the current one"]
 FLOORS = {"programs": (15000, 150000), "runs_compared": (60000, 600000), "exits_by_exception": (3000, 30000),
           "reentered_active": (600, 6000), "started_without_runtime": (4000, 40000), "late_defaults": (3000, 30000), "default_reregistrations": (800, 8000),
-          "library_derived_blocks": (1500, 15000), "requests_whose_handler_raised": (1000, 10000), "succession_threads": (3500, 35000), "succession_threads_without_runtime": (2000, 20000)}
+          "library_derived_blocks": (1500, 15000), "requests_whose_handler_raised": (1000, 10000), "reinherit_from_runtimeless_thread": (800, 8000), "succession_threads": (3500, 35000), "succession_threads_without_runtime": (2000, 20000)}
 SHARDS_QUICK = 4
 
 
@@ -345,6 +345,7 @@ def succession(ctx, r, case):
             mode = r.choice(["plain", "plain", "inherit-in-block", "inherit-outside", "plain-while-parent-in-block"])
             blk_T, blk_tag = r.choice(["T1", "T2"]), r.choice(TAGS)
             inner_T, inner_tag = r.choice(["T0", "T1", "T2"]), r.choice(TAGS)
+            reinherit = r.random() < 0.3
             parent = threading.current_thread()
             got = {}
 
@@ -364,6 +365,11 @@ def succession(ctx, r, case):
                 got["first"] = {T: ask(T) for T in ("T0", "T1", "T2")}
                 with rt.handle(types[inner_T], tagger(inner_tag)):
                     got["inside"] = {T: ask(T) for T in ("T0", "T1", "T2")}
+                    if reinherit:
+                        # inheriting from a thread that never had a runtime gives this thread a fresh one (the
+                        # defaults), whatever it had before - also inside one of its own blocks
+                        rt.inherit(threading.Thread(target=lambda: None, name="never-started"))
+                        got["reinherited"] = {T: ask(T) for T in ("T0", "T1", "T2")}
                 got["after"] = {T: ask(T) for T in ("T0", "T1", "T2")}
 
             t = threading.Thread(target=child, name=f"c14-succ-{step}")
@@ -399,6 +405,14 @@ def succession(ctx, r, case):
                     if a not in exp:
                         ctx.violation("thread-succession", f"thread {step} ({mode}) asked {T} {phase} its own block: answered by {a!r}, expected {sorted(exp)}; "
                                       f"defaults now {current}", W)
+                        return
+            if reinherit:
+                ctx.count("reinherit_from_runtimeless_thread")
+                for T in ("T0", "T1", "T2"):
+                    a = got.get("reinherited", {}).get(T)
+                    if a != current.get(T, "TypeError"):
+                        ctx.violation("thread-succession", f"thread {step} ({mode}) inherited from a thread that never had a runtime, inside its own block for {inner_T}: {T} answered by {a!r}, "
+                                      f"expected the default {current.get(T, 'TypeError')!r}", W)
                         return
             if mode.startswith("plain"):
                 ctx.count("succession_threads_without_runtime")
